@@ -200,11 +200,32 @@ Qed.
 Lemma pct_le : forall x p, p <= 100 -> (x * p) / 100 <= x.
 Proof. intros x p Hp. apply N.div_le_upper_bound; [lia|]. nia. Qed.
 
+Lemma Forall_firstn_ : forall {A} (P : A -> Prop) n l, Forall P l -> Forall P (firstn n l).
+Proof.
+  intros A P n. induction n as [|n IH]; intros l H; destruct l; cbn [firstn]; auto.
+  inversion H; subst. constructor; auto.
+Qed.
+
+Lemma Forall_skipn_ : forall {A} (P : A -> Prop) n l, Forall P l -> Forall P (skipn n l).
+Proof.
+  intros A P n. induction n as [|n IH]; intros l H; destruct l; cbn [skipn]; auto.
+  inversion H; subst. auto.
+Qed.
+
+Lemma curve_all_snd : forall e avg l ss, curve_all e avg l = SOk ss -> map snd ss = map snd l.
+Proof.
+  intros e avg. induction l as [|[st k] r IH]; cbn [curve_all]; intros ss H.
+  - inversion H; subst. reflexivity.
+  - destruct (split_curve (e_Yi e) st avg (e_yita e)) as [s| |]; cbn [sbind] in H; try discriminate.
+    destruct (curve_all e avg r) as [rest| |] eqn:Er; cbn [sbind] in H; try discriminate.
+    inversion H; subst ss. cbn [map snd]. f_equal. now apply IH.
+Qed.
+
 Theorem execute_split2_spec : forall e prev cur attrs infos fees balance splitFee o,
   execute_split2 e prev cur attrs infos fees balance splitFee = SOk o ->
   e_A e + e_B e <= 100 -> e_dappFee e <= 100 ->
   100 * (balance - splitFee) < W64 -> fsum fees + (balance - splitFee) < W64 ->
-  (forall k, node_ok prev cur attrs infos k) ->
+  Forall (fun wk => node_ok prev cur attrs infos (snd wk)) (sort_desc (candidates prev)) ->
   sum_fst (sort_desc (candidates prev)) < W64 ->
   (forall avg ss, curve_all e avg (firstn (N.to_nat (e_K e)) (sort_desc (candidates prev))) = SOk ss -> sum_fst ss < W64) ->
   so_splitSum o + so_dapp o <= balance - splitFee /\
@@ -238,7 +259,8 @@ Proof.
   assert (HnI : nI <= income) by (unfold nI; lia).
   destruct (split_nodes e prev cur attrs infos part1 (wsum64 ss) ss fees 0) as [[fees1 s1]| |] eqn:E1; cbn [sbind] in H; try discriminate.
   destruct (split_nodes_spec _ _ _ _ _ _ _ _ _ _ _ _ E1) with (W0 := 0) (D0 := 0) as (D1 & _ & G2 & G3 & G4); try lia.
-  { apply Forall_forall. intros; apply Hok. }
+  { apply (Forall_map snd (node_ok prev cur attrs infos)). rewrite (curve_all_snd _ _ _ _ Ec).
+    apply (Forall_map snd (node_ok prev cur attrs infos)). now apply Forall_firstn_. }
   { rewrite wsum64_exact by auto. lia. }
   rewrite N.sub_0_r, N.add_0_l in *. subst s1.
   set (len := if len_N cands <=? e_candSplitNum e then length cands else N.to_nat (e_candSplitNum e)) in *.
@@ -249,7 +271,7 @@ Proof.
   { inversion H; subst o. cbn [so_splitSum so_dapp so_fees]. repeat split; lia. }
   destruct (split_nodes e prev cur attrs infos part2 (wsum64 rest) rest fees1 D1) as [[fees2 s2]| |] eqn:E2; cbn [sbind] in H; try discriminate.
   destruct (split_nodes_spec _ _ _ _ _ _ _ _ _ _ _ _ E2) with (W0 := 0) (D0 := 0) as (D2 & _ & F2 & F3 & F4); try lia.
-  { apply Forall_forall. intros; apply Hok. }
+  { apply Forall_skipn_. now apply Forall_firstn_. }
   { rewrite wsum64_exact by auto. lia. }
   rewrite N.sub_0_r in *. inversion H; subst o. cbn [so_splitSum so_dapp so_fees]. repeat split; lia.
 Qed.
@@ -338,7 +360,7 @@ Theorem execute_split2_le_income : forall e prev cur attrs infos fees balance sp
   e_A e + e_B e <= 100 -> e_dappFee e <= 100 ->
   Forall (fun y => y < W32) (e_Yi e) -> e_K e < W32 ->
   100 * (balance - splitFee) < W64 -> fsum fees + (balance - splitFee) < W64 ->
-  (forall k, node_ok prev cur attrs infos k) ->
+  Forall (fun wk => node_ok prev cur attrs infos (snd wk)) (sort_desc (candidates prev)) ->
   sum_fst (sort_desc (candidates prev)) < W64 ->
   so_splitSum o + so_dapp o <= balance - splitFee /\
   fsum (so_fees o) = fsum fees + so_splitSum o /\
@@ -365,7 +387,7 @@ Theorem settle_fee_inv : forall e prev cur attrs infos st st',
   e_A e + e_B e <= 100 -> e_dappFee e <= 100 ->
   Forall (fun y => y < W32) (e_Yi e) -> e_K e < W32 ->
   100 * (fs_balance st - fs_splitFee st) < W64 -> fs_balance st < W64 ->
-  (forall k, node_ok prev cur attrs infos k) ->
+  Forall (fun wk => node_ok prev cur attrs infos (snd wk)) (sort_desc (candidates prev)) ->
   sum_fst (sort_desc (candidates prev)) < W64 ->
   fee_inv st'.
 Proof.
